@@ -111,7 +111,7 @@ def cases(tier):
             out.append({"kind": "goodman", "M": M, "M2": M2, "Rg": Rg, "_weight": 3})
     for i, p in enumerate(FIVE[:2] if q else FIVE):
         for R1 in (R_GOALS[::2] if q else R_GOALS):
-            for R2 in (R_GOALS[1::2] + [R1] if q else R_GOALS):
+            for R2 in (R_GOALS[1::2] + [R1, -math.inf] if q else R_GOALS):
                 out.append({"kind": "five", "set": i, "R1": R1, "R2": R2, "_weight": 8})
     for (M, M2) in (sens[1:3] if q else sens):
         for R1 in (R_GOALS[::3] if q else R_GOALS):
